@@ -389,3 +389,40 @@ def _(c):
         return x.r == fa_int(h0.pos(s) + 1, n, lambda i: Not(ok(item(i))), lambda i: h0.litem(h0._children(p), i))
 
     c.ensures("result <=> no later sibling of own kind", post)
+
+
+# ------------------------------------------------------------------ TypedTree.first_child / last_child: the root's query
+def _tree_first_last(which):
+    def post(x):
+        h0 = x.h0
+        s = h0._root(x.a.self)
+        n, item = children_seq(h0, s)
+        anyk = z3.eq(x.a.kind, ANY_KIND)
+        if anyk:  # every kind matches: the untyped answer
+            want = item(0) if which == "first" else item(n - 1)
+            if x.res.tag == "none":
+                return n == 0
+            return x.r == If(n == 0, NONE, want)
+        ok = lambda y: kmatch(h0, y, x.a.kind)  # noqa: E731
+        none_case = fa_int(0, n, lambda i: Not(ok(item(i))), lambda i: h0.litem(h0._children(s), i))
+        if x.res.tag == "none":
+            return none_case
+        r = x.r
+        m = L.fresh("m", L.I)
+        rng = (lambda m: (0, m)) if which == "first" else (lambda m: (m + 1, n))
+        hit = Exists([m], And(0 <= m, m < n, item(m) == r, ok(r), fa_int(*rng(m), lambda i: Not(ok(item(i))), lambda i: h0.litem(h0._children(s), i))))
+        return If(r == NONE, none_case, hit)
+
+    return post
+
+
+for _which in ("first", "last"):
+    @contract(f"nutree.typed_tree.TypedTree.{_which}_child", props=C15)
+    def _(c, _which=_which):
+        c.param("self", "tree").param("kind", "kind", "anykind")
+        c.families = ("typed",)
+        c.result_tag = "node?"
+        c.pure()
+        c.requires("wf", lambda x: wf0(x))
+        c.requires("kind is a str", lambda x: kind_is_str(x) if not z3.eq(x.a.kind, ANY_KIND) else True)
+        c.ensures(f"result == {_which} top-level node of that kind or None", _tree_first_last(_which))
